@@ -119,8 +119,8 @@ class DistributeMapper(IdentityMapper):
                 ]))
 
         if isinstance(expr.exponent, int):
-            if isinstance(newbase, Sum):
-                return self.map_product(
+            if isinstance(newbase, Sum) and expr.exponent >= 0:
+                return self.rec(
                         pymbolic.flattened_product(
                             expr.exponent*(newbase,)))
             else:
